@@ -25,7 +25,7 @@ MapOps ==
     [op : {"mset", "mread", "mopset", "replace", "mremove", "contains"}, x : MVars, k : Keys]
     \cup [op : {"mlen", "mclear"}, x : MVars]
     \cup [op : {"malias", "mclone"}, y : {"m", "e"}]
-    \cup [op : {"mlitfrom", "srcset"}]          \* n = map literal whose value is read from a list element; later write to that element
+    \cup [op : {"mlitfrom"}]          \* n = map literal whose value is read from a list element, then that element is overwritten
 
 Ops == IF mode = "list" THEN ListOps ELSE MapOps
 
@@ -126,8 +126,8 @@ MapStmts(o, n) ==
       [] o.op = "mclear" -> <<ExprS(MCall(V(o.x), "clear", <<>>))>>
       \* (a literal of `map[str, int?]` does not take an `int` element: there the operation only re-points n)
       [] o.op = "mlitfrom" -> IF ty = "opt" THEN <<Let("n", MapLit(<<>>))>>
-                              ELSE <<Let("n", MapLit(<<[key |-> S("k1"), val |-> Idx(V("src"), V("z0"))]>>))>>
-      [] o.op = "srcset" -> <<Assign(Idx(V("src"), V("z0")), "=", I(110 + 2 * n))>>
+                              ELSE <<Let("n", MapLit(<<[key |-> S("k1"), val |-> Idx(V("src"), V("z0"))]>>)),
+                                     Assign(Idx(V("src"), V("z0")), "=", I(110 + 2 * n))>>
       [] o.op = "malias" -> <<Let("n", V(o.y))>>
       [] o.op = "mclone" -> <<Let("n", MCall(V(o.y), "clone", <<>>))>>
 
